@@ -10,6 +10,7 @@ import collections
 import os
 import shutil
 import tempfile
+import threading
 
 from sim.gen import css as G
 from sim.kit import env, lib, ticks
@@ -79,6 +80,26 @@ class World:
             st["probe:var_or_rgb_at_eof"] += 1
 
     def step(self, op):
+        # The pipeline runs in a thread of its own: documents nested deeper than the interpreter's recursion limit
+        # are part of the workload, and where the limit is hit depends on how deep the caller's stack already is.
+        # A new thread starts at a fixed depth, so a run is the same under every entry point of the harness.
+        box = {}
+
+        def run():
+            try:
+                box["result"] = self._step(op)
+            except BaseException as e:  # noqa: BLE001
+                box["error"] = e
+
+        threading.stack_size(64 * 1024 * 1024)
+        t = threading.Thread(target=run, name="c01-step")
+        t.start()
+        t.join()
+        if "error" in box:
+            raise box["error"]
+        return box["result"]
+
+    def _step(self, op):
         cu = self.cu
         docs = op.get("docs", {})
         net = simnet.SimNet(docs, self.stats)
